@@ -1485,7 +1485,7 @@ def key_pieces(rng, fn, k=None):
         for i in range(len(key)):
             for j in range(i + 1, len(key) + 1):
                 sub = key[i:j]
-                if sub != key and sub not in accepted and sub not in out:
+                if sub != key and sub not in accepted and sub not in out and not sub.startswith("_"):   # "_…" keys are the generator's own
                     out.append(sub)
     if k is not None and len(out) > k:
         out = rng.sample(out, k)
